@@ -19,7 +19,8 @@ hash_t RealDouble::__hash__() const
 {
     hash_t seed = SYMENGINE_REAL_DOUBLE;
     // 0.0 and -0.0 compare equal, so they must hash alike
-    hash_combine<double>(seed, i == 0.0 ? 0.0 : i);
+    hash_combine<double>(seed, i == 0.0 ? 0.0
+                                         : std::isnan(i) ? std::nan("") : i);
     return seed;
 }
 
@@ -27,7 +28,8 @@ bool RealDouble::__eq__(const Basic &o) const
 {
     if (is_a<RealDouble>(o)) {
         const RealDouble &s = down_cast<const RealDouble &>(o);
-        return this->i == s.i;
+        // structural equality: a NaN payload is equal to itself
+        return this->i == s.i or (std::isnan(this->i) and std::isnan(s.i));
     }
     return false;
 }
@@ -38,6 +40,13 @@ int RealDouble::compare(const Basic &o) const
     const RealDouble &s = down_cast<const RealDouble &>(o);
     if (i == s.i)
         return 0;
+    // NaN is unordered for <; sort it after every other double so that the
+    // comparison stays antisymmetric and is 0 exactly for equal objects
+    if (std::isnan(i) or std::isnan(s.i)) {
+        if (std::isnan(i) and std::isnan(s.i))
+            return 0;
+        return std::isnan(i) ? 1 : -1;
+    }
     return i < s.i ? -1 : 1;
 }
 
